@@ -58,6 +58,7 @@ type c17Input struct {
 	Prior  []c17Op  `json:"prior,omitempty"`  // with Reopen: the calls of the earlier lifetime (instants ignored)
 	Wiring string   `json:"wiring,omitempty"` // "" = the loop through the verif hook in virtual time; "db" / "path" = the task as started by the real server.New (Config.DB / Config.DBPath+Key+AuditLog), observed in REAL time
 	Until  uint64   `json:"until,omitempty"`  // wiring: real ms until which the object store is watched
+	ReadFaults []c17Fault `json:"read_faults,omitempty"` // intervals during which the database file cannot be read
 	Script []c17Upl `json:"script"`
 	Cancel uint64   `json:"cancel"` // instant (ms) the context is cancelled
 }
@@ -88,12 +89,48 @@ func (in c17Input) allOps() []c17Op {
 
 func c17Val(v int) []byte { return []byte(fmt.Sprintf("value-%d", v)) }
 
+// c17Fault: from Lo to Hi (ms, inclusive) the database file is not where it should be: "moved" = renamed
+// aside (ENOENT), "dir" = renamed aside and a directory put in its place (EISDIR); put back at Hi.
+type c17Fault struct {
+	Lo   uint64 `json:"lo"`
+	Hi   uint64 `json:"hi"`
+	Kind string `json:"kind"`
+}
+
+func c17FaultApply(path string, f c17Fault) error {
+	if err := os.Rename(path, path+".aside"); err != nil {
+		return err
+	}
+	if f.Kind == "dir" {
+		return os.Mkdir(path, 0700)
+	}
+	return nil
+}
+
+func c17FaultUndo(path string, f c17Fault) error {
+	if f.Kind == "dir" {
+		if err := os.Remove(path); err != nil {
+			return err
+		}
+	}
+	return os.Rename(path+".aside", path)
+}
+
+func coqFaults(fs []c17Fault) string {
+	parts := make([]string, len(fs))
+	for i, f := range fs {
+		parts[i] = fmt.Sprintf("(%d,%d)", f.Lo, f.Hi)
+	}
+	return coqList(parts)
+}
+
 type c17Upload struct {
 	T      uint64 `json:"t"`
 	Gen    uint64 `json:"gen"` // generation of the file version the body equals; 0 = none
 	OK     bool   `json:"ok"`
 	Opens  bool   `json:"opens"` // the body decodes with the database key
 	Bid    uint64 `json:"bid"`   // identifier of the body's bytes (first-seen order, exact comparison)
+	Len    int    `json:"len"`   // length of the body
 	Bucket string `json:"bucket,omitempty"`
 	Key    string `json:"key,omitempty"`
 }
@@ -216,6 +253,7 @@ func (s *c17Store) Do(req *http.Request) (*http.Response, error) {
 		s.bodies[bh] = uint64(len(s.bodies) + 1)
 	}
 	up.Bid = s.bodies[bh]
+	up.Len = len(body)
 	if _, err := decodeFileBytes(s.env.dir, body, s.env.kek.inner); err == nil {
 		up.Opens = true
 	}
@@ -290,6 +328,34 @@ func runC17Scenario(t *testing.T, work string, idx int, in c17Input) c17Obs {
 			RetryMaxAttempts: 1,
 			Retryer:          aws.NopRetryer{},
 		})
+		// the intervals in which the file cannot be read (one goroutine each; an interval starting at 0
+		// begins before the task does)
+		var fwg sync.WaitGroup
+		for _, f := range in.ReadFaults {
+			if f.Lo == 0 {
+				if err := c17FaultApply(env.path, f); err != nil {
+					obs.Note += "fault: " + err.Error() + "; "
+				}
+			}
+			fwg.Add(1)
+			go func(f c17Fault) {
+				defer fwg.Done()
+				if f.Lo > 0 {
+					time.Sleep(time.Duration(f.Lo)*time.Millisecond - time.Since(st.start))
+					if err := c17FaultApply(env.path, f); err != nil {
+						st.mu.Lock()
+						st.note += "fault: " + err.Error() + "; "
+						st.mu.Unlock()
+					}
+				}
+				time.Sleep(time.Duration(f.Hi)*time.Millisecond - time.Since(st.start))
+				if err := c17FaultUndo(env.path, f); err != nil {
+					st.mu.Lock()
+					st.note += "fault undo: " + err.Error() + "; "
+					st.mu.Unlock()
+				}
+			}(f)
+		}
 		ctx, cancel := context.WithCancel(context.Background())
 		done := make(chan struct{})
 		go func() {
@@ -337,6 +403,7 @@ func runC17Scenario(t *testing.T, work string, idx int, in c17Input) c17Obs {
 			stuck = true
 		}
 		<-wdone
+		fwg.Wait()
 		st.mu.Lock()
 		obs.Uploads = append([]c17Upload(nil), st.ups...)
 		obs.Racing = st.racing
@@ -410,11 +477,11 @@ func coqC17(in c17Input, obs c17Obs) string {
 		prior = coqEvs(in.Prior)
 	}
 	if in.Wiring != "" {
-		return fmt.Sprintf("ScW %s %s %s %d %s %s %d %d", prior, coqEvs(in.allOps()), coqNList(in.Reads), in.Cancel,
-			coqList(ups), coqNList(bids), obs.FinalGen, obs.FinalBid)
+		return fmt.Sprintf("ScW %s %s %s %d %s %s %d %d %s", prior, coqEvs(in.allOps()), coqNList(in.Reads), in.Cancel,
+			coqList(ups), coqNList(bids), obs.FinalGen, obs.FinalBid, coqFaults(in.ReadFaults))
 	}
-	return fmt.Sprintf("Sc %s %s %s %s %d %s %s %s %d %d %d", prior, coqEvs(in.allOps()), coqNList(in.Reads), coqList(sc), in.Cancel,
-		coqList(ups), coqNList(bids), coqOpt(coqN(obs.Exit), obs.Exited), obs.FinalGen, obs.Racing, obs.FinalBid)
+	return fmt.Sprintf("Sc %s %s %s %s %d %s %s %s %d %d %d %s", prior, coqEvs(in.allOps()), coqNList(in.Reads), coqList(sc), in.Cancel,
+		coqList(ups), coqNList(bids), coqOpt(coqN(obs.Exit), obs.Exited), obs.FinalGen, obs.Racing, obs.FinalBid, coqFaults(in.ReadFaults))
 }
 
 func c17Record(in c17Input, obs c17Obs) Record {
@@ -466,6 +533,22 @@ func c17Record(in c17Input, obs c17Obs) Record {
 	} else {
 		tags["started-by:verif-hook,virtual-time"] = true
 	}
+	// a read fault matters when a backup was due inside it: no request then, although one minute
+	// earlier/later there is one (counted from the observed log: a gap of two periods around it)
+	for _, f := range in.ReadFaults {
+		tags["read-fault:"+f.Kind] = true
+		if f.Lo == 0 {
+			tags["read-fault:at-start-up"] = true
+		}
+		for _, u := range obs.Uploads {
+			if u.T == f.Lo+1+60000 || (f.Lo == 0 && u.T == 60000) {
+				tags["read-fault:upload-one-period-after-the-fault"] = true
+			}
+		}
+	}
+	if len(in.ReadFaults) == 0 {
+		tags["read-fault:none"] = true
+	}
 	if len(in.Reads) > 0 {
 		tags["has-reads"] = true
 	}
@@ -480,6 +563,9 @@ func c17Record(in c17Input, obs c17Obs) Record {
 	rec := Record{Kind: "scenario", Input: in, Obs: obs, Key: string(kb), Tags: sortedKeys(tags),
 		Nontrivial: (len(obs.Uploads) >= 3 && len(ops) >= 2) || (nfail >= 2 && len(obs.Uploads) >= 1) || in.Reopen || in.Wiring != "", Coq: coqC17(in, obs)}
 	for _, u := range obs.Uploads {
+		if u.Len == 0 {
+			rec.Direct = &DirectVerdict{OK: false, What: fmt.Sprintf("an EMPTY object was uploaded at %d ms (key %q)", u.T, u.Key)}
+		}
 		if in.Wiring == "" && u.Bucket != "backups" && !strings.Contains(u.Key, "backups") {
 			rec.Direct = &DirectVerdict{OK: false, What: fmt.Sprintf("upload went to %q %q, not to the configured bucket", u.Bucket, u.Key)}
 		}
@@ -491,7 +577,7 @@ func c17Record(in c17Input, obs c17Obs) Record {
 
 func genC17(seed uint64, i int) c17Input {
 	r := NewRand(seed, uint64(170000+i))
-	kinds := []string{"bursts", "idle-hours", "failures", "racing", "slow-uploads", "cancel-early", "mixed", "mixed", "failed-writes", "failed-writes"}
+	kinds := []string{"bursts", "idle-hours", "failures", "racing", "slow-uploads", "cancel-early", "mixed", "mixed", "failed-writes", "failed-writes", "read-faults", "read-faults"}
 	in := c17Input{Kind: kinds[r.IntN(len(kinds))]}
 	// instants: writes at x*1000+500 (+ a few ms), durations in whole seconds, cancellation at
 	// ...+700: no two events of the timeline fall on the same instant
@@ -592,6 +678,11 @@ func genC17(seed uint64, i int) c17Input {
 		case "slow-uploads":
 			e.Dur = uint64([]int{1, 20, 59, 61, 130, 299, 301, 400}[r.IntN(8)]) * 1000
 			e.OK = r.IntN(4) != 0
+		case "read-faults": // no durations: the task wakes on whole minutes, where the faults are put
+			e.OK = r.IntN(4) != 0
+			if r.IntN(5) == 0 {
+				e.Race = 1
+			}
 		default:
 			e.OK = r.IntN(4) != 0
 			if r.IntN(3) == 0 {
@@ -606,6 +697,45 @@ func genC17(seed uint64, i int) c17Input {
 	in.Cancel = horizon*1000 + 700
 	if in.Kind == "cancel-early" && r.IntN(3) == 0 {
 		in.Cancel = uint64(1 + r.IntN(900))
+	}
+	// failing READS of the database file: the file is moved aside (or a directory put in its place) from
+	// 1 ms before to 1 ms after a whole minute - where the task wakes when uploads take no time - mostly
+	// the minute after a call (a backup is due then), sometimes two minutes in a row, sometimes at
+	// start-up, sometimes where nothing is due.  Calls fall on x.3-x.5 s: never inside an interval.
+	if in.Kind == "read-faults" || r.IntN(5) == 0 {
+		at := map[uint64]bool{}
+		for _, op := range in.Ops {
+			if in.Kind == "read-faults" && r.IntN(2) == 0 || r.IntN(6) == 0 {
+				T := (op.T/60000 + 1) * 60000
+				at[T] = true
+				if r.IntN(3) == 0 {
+					at[T+60000] = true
+				}
+			}
+		}
+		if r.IntN(3) == 0 {
+			at[0] = true
+			if r.IntN(3) == 0 {
+				at[60000] = true
+			}
+		}
+		if r.IntN(2) == 0 {
+			at[uint64(1+r.IntN(int(horizon/60)+1))*60000] = true
+		}
+		var ts []uint64
+		for T := range at {
+			ts = append(ts, T)
+		}
+		sort.Slice(ts, func(i, j int) bool { return ts[i] < ts[j] })
+		for _, T := range ts {
+			f := c17Fault{Lo: T - 1, Hi: T + 1, Kind: []string{"moved", "dir"}[r.IntN(2)]}
+			if T == 0 {
+				f.Lo = 0
+			}
+			if f.Hi < in.Cancel {
+				in.ReadFaults = append(in.ReadFaults, f)
+			}
+		}
 	}
 	return in
 }
